@@ -223,6 +223,13 @@ func runStream(st *Stream, seed uint64, n int, tier, driverPath string, workers 
 	}
 	stalled := make(chan struct{})
 	stopWatch := make(chan struct{})
+	// memory watchdog: the harness itself needs a few hundred MB; a heap of several GB means the
+	// implementation allocates without bound (reported like a stall, before the OOM killer strikes)
+	memLimit := uint64(6) << 30
+	if v, err := strconv.Atoi(os.Getenv("PGVH_MEM_LIMIT_MB")); err == nil && v > 0 {
+		memLimit = uint64(v) << 20
+	}
+	stallWhy := "no call returned"
 	go func() {
 		last, lastT := progress.Load(), time.Now()
 		tk := time.NewTicker(time.Second)
@@ -232,6 +239,13 @@ func runStream(st *Stream, seed uint64, n int, tier, driverPath string, workers 
 			case <-stopWatch:
 				return
 			case <-tk.C:
+				var ms runtime.MemStats
+				runtime.ReadMemStats(&ms)
+				if ms.HeapAlloc > memLimit {
+					stallWhy = fmt.Sprintf("the heap grew to %d MB (limit %d MB)", ms.HeapAlloc>>20, memLimit>>20)
+					close(stalled)
+					return
+				}
 				if p := progress.Load(); p != last {
 					last, lastT = p, time.Now()
 				} else if time.Since(lastT) > time.Duration(stallS)*time.Second {
@@ -300,9 +314,9 @@ func runStream(st *Stream, seed uint64, n int, tier, driverPath string, workers 
 		col.mu.Lock()
 		sum.SpecFailures++
 		sum.Failures = append(sum.Failures, Failure{Kind: "spec", Stream: st.Name, Seed: seed, Index: 0,
-			Op:   fmt.Sprintf("(stall: no call returned for %d s after %d completed cases)", stallS, sum.Evaluations),
+			Op:   fmt.Sprintf("(stall: %s; watchdog %d s; %d cases had completed)", stallWhy, stallS, sum.Evaluations),
 			Impl: X(dump), Model: "every call returns", Spec: "fails", Scope: "in",
-			Pretty: fmt.Sprintf("STALL under stream %s: no validation / cache call returned for %d s (deadlock or livelock); goroutines:\n%s", st.Name, stallS, dump)})
+			Pretty: fmt.Sprintf("STALL under stream %s: %s (watchdog: %d s without a completed call = deadlock or livelock; heap limit = unbounded allocation); goroutines:\n%s", st.Name, stallWhy, stallS, dump)})
 		sum.DistinctNontrivial = len(col.distinct)
 		sum.WallS = time.Since(start).Seconds()
 		sum.Stalled = true
